@@ -17,13 +17,16 @@ pub fn run_miri(seed: u64, default_seeds: u64, out: &mut ExtraResult) {
     let mut ok_runs = 0u64;
     let mut checked = 0u64;
     let mut ranges = Vec::new();
-    // quick: one invocation (variant 0); thorough: both variants
-    let variants = if default_seeds >= 64 { 2u64 } else { 1u64 };
-    for variant in 0..variants {
-        let lo = seed.wrapping_mul(1000) % 1_000_000 + variant * nseeds;
-        let hi = lo + nseeds;
-        ranges.push(format!("{lo}..{hi} (variant {variant})"));
-        let flags = format!("-Zmiri-many-seeds={lo}..{hi} -Zmiri-preemption-rate=0.1");
+    // two invocations: context variant 0 at pre-emption rate 0.1 (long stretches per thread, wide race windows), context
+    // variant 1 at 0.4 (threads alternate every few basic blocks: narrow check-then-act windows); quick splits its
+    // seeds between the two, thorough runs the full count for each
+    let per = if default_seeds >= 64 { nseeds } else { (nseeds / 2).max(1) };
+    for variant in 0..2u64 {
+        let rate = if variant == 0 { "0.1" } else { "0.4" };
+        let lo = seed.wrapping_mul(1000) % 1_000_000 + variant * per;
+        let hi = lo + per;
+        ranges.push(format!("{lo}..{hi} (variant {variant}, pre-emption rate {rate})"));
+        let flags = format!("-Zmiri-many-seeds={lo}..{hi} -Zmiri-preemption-rate={rate}");
         let res = Command::new("cargo")
             .args(["+nightly", "miri", "run", "--offline", "--", &variant.to_string()])
             .current_dir(&miri_dir)
@@ -65,7 +68,7 @@ pub fn run_miri(seed: u64, default_seeds: u64, out: &mut ExtraResult) {
                 Some(s) => format!("-Zmiri-seed={s}"),
                 None => format!("-Zmiri-many-seeds={lo}..{hi}"),
             };
-            let cmd = format!("cd {miri_dir} && CARGO_TARGET_DIR={miri_target} MIRIFLAGS='{seed_flag} -Zmiri-preemption-rate=0.1' cargo +nightly miri run --offline -- {variant}; test $? -eq 0");
+            let cmd = format!("cd {miri_dir} && CARGO_TARGET_DIR={miri_target} MIRIFLAGS='{seed_flag} -Zmiri-preemption-rate={rate}' cargo +nightly miri run --offline -- {variant}; test $? -eq 0");
             out.violations.push((
                 Violation::new("C18/miri", class, first_err.clone()),
                 json!({"format": 1, "property": "C18", "engine": "miri", "miri_seed": failing_seed, "variant": variant, "cmd": cmd,
@@ -77,8 +80,8 @@ pub fn run_miri(seed: u64, default_seeds: u64, out: &mut ExtraResult) {
     out.coverage.insert(
         "miri".into(),
         json!({"interpreter_seeds": ranges, "runs_ok": ok_runs, "results_compared_with_sequential_baseline": checked,
-               "flags": "-Zmiri-preemption-rate=0.1 (data-race detector and UB checks on; scalar substring-search path)",
-               "workload": "/verif/miri: 3 threads, each compiling its own copy of 7 filters (regex, wildcard, contains, in $list, [*] any/all, memoised map-each call, in {..}) after a barrier (first use of the SIMD latch raced), then executing shared filters on a shared Arc<ExecutionContext>",
+               "flags": "-Zmiri-preemption-rate=0.1 / 0.4 (data-race detector and UB checks on; scalar substring-search path)",
+               "workload": "/verif/miri: 3 threads, each compiling its own copy of 11 filters (regex, wildcard, contains, in $list, [*] any/all, memoised map-each call, int / byte / ip literal sets, plain comparisons of every primitive) after a barrier (first use of the SIMD latch raced), then executing shared filters on a shared Arc<ExecutionContext>",
                "wall_s": t0.elapsed().as_secs_f64()}),
     );
 }
